@@ -1,6 +1,7 @@
 import Op2Proofs.SliceNesting
 import Op2Proofs.SysLemmas
 import Op2Proofs.SysContent
+import Op2Proofs.SysGood
 import Op2Model.Vol
 import Op2Model.Clm
 /-!
@@ -162,6 +163,30 @@ theorem C13_request_keeps_window (r : Rd) (o : OOp) : (r.ostep o).2.content = r.
 /-- hence under every interleaved history every object still exposes exactly the bytes it was created over -/
 theorem C13_confined_under_every_history (h : List (Nat × OOp)) (objs : Sys) (j : Nat) (r : Rd) (hr : objs[j]? = some r) :
     ∃ r', (Sys.run objs h).2[j]? = some r' ∧ r'.content = r.content := Sys.run_content h objs j r hr
+
+/-! ## every reachable object: well-formed, and a window of the root — "however deeply nested" -/
+
+/-- start from one memory reader or one file reader over `data` (shorter than 2^64) and run ANY interleaved history of requests
+    with 64-bit arguments — reads, partial reads, peeks and seeks in and out of bounds, `Slice(start,len)`, `Slice(len)` at the
+    cursor, copies, of the root, of slices, of slices of slices, to any depth: every object alive afterwards satisfies its class
+    invariant (cursor inside its window, window inside its parent) and exposes a contiguous window of `data` and nothing else -/
+theorem C13_every_reachable_object_is_a_window (data : Bytes) (hd : data.length < W64) (h : List (Nat × OOp))
+    (ha : ∀ p ∈ h, p.2.argOk) :
+    (∀ r ∈ (Sys.run [Rd.mem { data := data, pos := 0 }] h).2, r.Good ∧ IsWindow r.content data) ∧
+    (∀ r ∈ (Sys.run [Rd.file { data := data, pos := 0 }] h).2, r.Good ∧ IsWindow r.content data) :=
+  ⟨Sys.run_rooted data h _ (Sys.rooted_init_mem data hd) ha, Sys.run_rooted data h _ (Sys.rooted_init_file data hd) ha⟩
+
+/-- one derivation: the new object exposes a window of what its parent exposes, and both are well-formed afterwards -/
+theorem C13_derived_object_is_a_window_of_its_parent (r : Rd) (d : DOp) (hr : r.Good) (hd : d.argOk) (n r' : Rd)
+    (h : r.derive d = some (.ok (n, r'))) : n.Good ∧ r'.Good ∧ IsWindow n.content r.content :=
+  Rd.derive_good r d hr hd n r' h
+
+/-- non-vacuity: a slice of a slice of a file, taken at the cursor, then read past its end -/
+example : let h : List (Nat × OOp) := [(0, .derive (.slice 2 5)), (1, .op (.read 1)), (1, .derive (.here 3)), (2, .op (.read 9)),
+                                       (2, .op (.read 3)), (0, .derive .copy)]
+    ((Sys.run [Rd.file { data := [10, 11, 12, 13, 14, 15, 16, 17], pos := 0 }] h).2.map fun o => (o.content, o.pos)) =
+      [([10, 11, 12, 13, 14, 15, 16, 17], 0), ([12, 13, 14, 15, 16], 4), ([13, 14, 15], 3), ([10, 11, 12, 13, 14, 15, 16, 17], 0)] := by
+  decide
 
 /-! ## archive member streams are such slices
 
